@@ -34,6 +34,7 @@ func init() {
 }
 
 func runC02(w *World, r *Report) {
+	hrLimiterRegisters(w, r, "R6")
 	hrDiscoveryRunOrder(w, r, "R5")
 	// the system flows of a quota are selected like any flow: the qualifier tables of C03.R4
 	r.Borrow(w, runC03, map[string]string{"R4": "R6", "R9": "R6"})
